@@ -1651,3 +1651,13 @@ def mem_size_of(I, args, callee):
     if t.startswith(('&', '*', 'Box<')):
         return 16 if ('[' in t or 'str' in t or 'dyn' in t) else 8
     raise Unmodelled('size_of::<%s>' % t)
+
+
+@model('Not::not', '<bool as Not>::not')
+def op_not(I, args, callee):
+    v = deref1(args[0])
+    if v is True or v is False:
+        return not v
+    if type(v) is Sym:
+        return Sym(z3.Not(v.e)) if z3.is_bool(v.e) else Sym(~v.e)
+    raise Unmodelled('Not::not on %r' % (v,))
